@@ -112,7 +112,8 @@ def arm_constructions(F, body, adt_in, adt_out):
             continue
         names = [v['name'] for v in F.adts[adt_in]['variants']]
         for v, tgt in t['cases'] + [[None, t['else']]]:
-            blocks = [x for x in body.reach(tgt) if body.edge_dominates((b, tgt), x)]
+            # everything the arm can run, join blocks shared with other arms included (or-patterns bind per arm, build after)
+            blocks = [x for x in body.reach(tgt)]
             vn = names[v] if v is not None and v < len(names) else None
             if vn is None:
                 rest = [nm for i, nm in enumerate(names) if i not in [c[0] for c in t['cases']]]
@@ -222,7 +223,7 @@ def creation(ctx):
     F = ctx.F
     n = 0
     for fk, want in (('core::primitives::update_msk', 'hint-eq'), ('core::primitives::rekey', 'newest-secret')):
-        fam = F.family(fk)
+        fam = lib.family_ext(F, fk)
         for body in fam:
             for c in body.calls(r'RightSecretKey::random$'):
                 n += 1
